@@ -179,6 +179,16 @@ static void ref_cmp(const Ctx *x, Ref *r) {            /* strcmp_s strcasecmp_s 
      * operand) may be rejected, as wcsfc_s documents, or compared */
     if (ci && (f->flags & F_WIDE) && !q.dterm) { r->verdict = V_ANY; return; }   /* wcsicmp_s folds whole strings: an operand without terminator inside dmax is rejected (ESNOSPC, pinned by its test) */
     if (ci && (f->flags & F_WIDE)) { for (long k = 0; k < q.dn; k++) if (q.d[k] > 0x10FFFF) { r->verdict = V_ANY; return; } for (long k = 0; k < q.sn; k++) if (q.s[k] > 0x10FFFF) { r->verdict = V_ANY; return; } }
+    if (ci && (f->flags & F_WIDE)) {       /* full case folding: some characters fold to two or three */
+        static unsigned long fa[3 * MAXE + 4], fb[3 * MAXE + 4]; long na = 0, nb = 0;
+        for (int w = 0; w < 2; w++) { unsigned long *o = w ? fb : fa; long *n = w ? &nb : &na; const unsigned long *in = w ? q.s : q.d; long len = w ? q.sn : q.dn;
+            for (long k = 0; k < len; k++) { unsigned long v = in[k];
+                if (v == 0x390) { o[(*n)++] = 0x3b9; o[(*n)++] = 0x308; o[(*n)++] = 0x301; } else if (v == 0x3b0) { o[(*n)++] = 0x3c5; o[(*n)++] = 0x308; o[(*n)++] = 0x301; }
+                else if (v == 0xdf) { o[(*n)++] = 's'; o[(*n)++] = 's'; } else if (v == 0xfb03) { o[(*n)++] = 'f'; o[(*n)++] = 'f'; o[(*n)++] = 'i'; } else o[(*n)++] = fold(v); }
+            o[*n] = 0; }
+        long k = 0; while (fa[k] && fa[k] == fb[k]) k++;
+        r_out(r, sgn((long)fa[k] - (long)fb[k])); r->sign_only = 1; return;
+    }
     long i = 0;
     for (;; i++) {
         if (!q.dterm && i >= q.dn) { r_out(r, 0); r->sign_only = 1; return; }   /* first dmax elements equal */
